@@ -141,10 +141,50 @@ func churnTrees() []func() churnTree {
 	}
 }
 
+// numeric churn: groups of keys g<<8|b sharing their upper bytes, b from a list that starts with 0x00
+func numericShapes() []churnShape {
+	mk := func(n int) func(g int) []string {
+		return func(g int) []string {
+			var out []string
+			for j := 0; j < n; j++ {
+				b := j * 5 // 0x00, 0x05, ...: the smallest branch byte of every group is 0x00
+				if b > 255 {
+					b = 255 - j
+				}
+				out = append(out, fmt.Sprintf("%d", uint64(g+1)<<8|uint64(b)))
+			}
+			return out
+		}
+	}
+	return []churnShape{{"num-fan2", mk(2)}, {"num-fan4", mk(4)}, {"num-fan5", mk(5)}, {"num-fan17", mk(17)}, {"num-fan49", mk(49)}}
+}
+
+func parseU(k string) uint64 {
+	var v uint64
+	fmt.Sscan(k, &v)
+	return v
+}
+
+func numericChurnTrees() []func() churnTree {
+	return []func() churnTree{
+		func() churnTree {
+			t := art.NewUnsignedBinaryTree[uint32, int]()
+			return churnTree{"unsigned[uint32]", func(k string) { t.Insert(uint32(parseU(k)), 1) }, func(k string) bool { return t.Delete(uint32(parseU(k))) }, t.Size, c17PerTree}
+		},
+		func() churnTree {
+			t := art.NewSignedBinaryTree[int64, int]()
+			return churnTree{"signed[int64]", func(k string) { t.Insert(int64(parseU(k))-1<<40, 1) }, func(k string) bool { return t.Delete(int64(parseU(k)) - 1<<40) }, t.Size, c17PerTree}
+		},
+	}
+}
+
 // ChurnJobs names the sliding-window jobs.
 func ChurnJobs() []string {
 	var out []string
 	for _, mk := range churnTrees() {
+		out = append(out, "churn/"+mk().name)
+	}
+	for _, mk := range numericChurnTrees() {
 		out = append(out, "churn/"+mk().name)
 	}
 	return out
@@ -163,6 +203,13 @@ func ExploreChurn(job, tier string, deadline time.Duration) *Result {
 	for _, mk := range churnTrees() {
 		if "churn/"+mk().name == job {
 			mkTree = mk
+		}
+	}
+	shapes := churnShapes()
+	for _, mk := range numericChurnTrees() {
+		if "churn/"+mk().name == job {
+			mkTree = mk
+			shapes = numericShapes()
 		}
 	}
 	if mkTree == nil {
@@ -224,7 +271,7 @@ func ExploreChurn(job, tier string, deadline time.Duration) *Result {
 		}
 		return nil
 	}
-	for _, sh := range churnShapes() {
+	for _, sh := range shapes {
 		n := len(sh.keys(0))
 		for _, ord := range orders(n) {
 			if deadline > 0 && time.Since(start) > deadline {
@@ -248,6 +295,6 @@ func ExploreChurn(job, tier string, deadline time.Duration) *Result {
 		}
 	}
 	st.Extra = map[string]float64{"max_growth_bytes_sliding_window": float64(maxGrowth)}
-	st.Samples = append(st.Samples, fmt.Sprintf("%s: every (group shape, deletion order) pair of %d shapes, %d window steps each, e.g. shape %q = %q", job, len(churnShapes()), churnGroups, churnShapes()[0].name, churnShapes()[0].keys(0)))
+	st.Samples = append(st.Samples, fmt.Sprintf("%s: every (group shape, deletion order) pair of %d shapes, %d window steps each, e.g. shape %q = %q", job, len(shapes), churnGroups, shapes[0].name, shapes[0].keys(0)))
 	return res
 }
